@@ -51,9 +51,19 @@ func judgeFrontEndRetries(e *env, frontEnd string) {
 			return
 		}
 		allRetryable := true
+		batchRedirected := false
 		for _, c := range spec.Cmds {
 			if c.Flag != "ro" && c.Flag != "retry" {
 				allRetryable = false
+			}
+			if uid, ok := uidOf(c.Argv); ok {
+				for _, a := range arrivals[uid] {
+					if a.redirect {
+						// a batch is sent on as a whole when one of its members is answered with a redirect: the members
+						// that had been served are sent again by that, which is not a retry
+						batchRedirected = spec.Kind == "multi"
+					}
+				}
 			}
 		}
 		for ci, c := range spec.Cmds {
@@ -79,7 +89,9 @@ func judgeFrontEndRetries(e *env, frontEnd string) {
 					out.judged("C03:write-at-most-once")
 				}
 			}
-			if resends > 0 {
+			if resends > 0 && batchRedirected {
+				out.notJudged("C28:re-sent-with-a-redirected-batch")
+			} else if resends > 0 {
 				out.probe("front-end-re-sent-a-command")
 				safe := retryable
 				if spec.Kind == "multi" {
